@@ -117,6 +117,17 @@ def _reference_functions() -> Optional[set]:
     return _REF_CACHE[0]
 
 
+def _reference_globals() -> Optional[set]:
+    """relpath::name of every module-level name of the reference tree"""
+    path = os.path.join(os.path.dirname(os.path.abspath(__file__)), "reference_functions.json")
+    try:
+        import json
+        with open(path) as fh:
+            return set(json.load(fh).get("globals", []))
+    except OSError:
+        return None
+
+
 class Model:
     """Whole-repository model."""
 
@@ -170,6 +181,40 @@ class Model:
         if os.environ.get("FRAMELINT_NO_WEB_SPLIT") != "1":
             from .inline import split_webs
             self.webs_split = sum(split_webs(f.node) for f in self.all_functions(include_inlined=True))
+
+    def new_constant_table(self, mi: "ModuleInfo", name: str) -> Optional[ast.expr]:
+        """the display bound to a module-level name that the reference tree does not have, bound once to a dict / tuple / list /
+        set display and never stored into, mutated or re-bound anywhere: a new constant table (read through like a new helper)"""
+        cache = self.__dict__.setdefault("_new_tables", {})
+        key = (mi.relpath, name)
+        if key in cache:
+            return cache[key]
+        res = None
+        ref = self.__dict__.setdefault("_ref_globals", _reference_globals())
+        if ref is not None and f"{mi.relpath}::{name}" not in ref and os.environ.get("FRAMELINT_NO_HELPER_INLINING") != "1":
+            binds = []
+            for st in mi.tree.body:
+                if isinstance(st, ast.Assign) and len(st.targets) == 1 and isinstance(st.targets[0], ast.Name) and st.targets[0].id == name:
+                    binds.append(st.value)
+                elif isinstance(st, ast.AnnAssign) and st.value is not None and isinstance(st.target, ast.Name) and st.target.id == name:
+                    binds.append(st.value)
+            if len(binds) == 1 and isinstance(binds[0], (ast.Dict, ast.Tuple, ast.List, ast.Set)):
+                MUT = {"append", "extend", "insert", "pop", "remove", "clear", "update", "setdefault", "add", "discard", "sort", "reverse", "popitem"}
+                ok = True
+                for m in self.modules.values():
+                    for n in ast.walk(m.tree):
+                        if isinstance(n, (ast.Subscript, ast.Attribute)) and isinstance(n.ctx, (ast.Store, ast.Del)) and isinstance(n.value, ast.Name) and n.value.id == name:
+                            ok = False
+                        elif isinstance(n, ast.Call) and isinstance(n.func, ast.Attribute) and n.func.attr in MUT and isinstance(n.func.value, ast.Name) and n.func.value.id == name:
+                            ok = False
+                        elif isinstance(n, ast.Global) and name in n.names:
+                            ok = False
+                        elif isinstance(n, ast.AugAssign) and isinstance(n.target, ast.Name) and n.target.id == name:
+                            ok = False
+                if ok:
+                    res = binds[0]
+        cache[key] = res
+        return res
 
     def negated_twin(self, attr: str) -> Optional[str]:
         """``attr`` names exactly one property in the repository, it returns ``not self.F``, and exactly one other property of
